@@ -194,8 +194,10 @@ func propCheck(c Case, outdir string) (what string) {
 			return ""
 		}
 	}
-	if c.Op.Name == "Tip" && flagsOf(c, n, k).Proper {
-		return "" // Tip is specified for matrices that own their whole storage only
+	if fl := flagsOf(c, n, k); c.Op.Name == "Tip" && fl.Proper && (c.Sparse || !fl.Transposed) {
+		// Tip is specified for matrices that own their whole storage only; on a transposed
+		// window it merely clears the flag (2ffe99c), which is checked like any other case
+		return ""
 	}
 	// (b) operation on the view vs on an independent deep copy
 	dc := newMatrix(c.Sparse, t, n, k, want)
